@@ -6,6 +6,7 @@ package main
 
 import (
 	"fmt"
+	"go/ast"
 	"go/token"
 
 	"golang.org/x/tools/go/ssa"
@@ -39,7 +40,32 @@ func (fr *Frame) lineHints(in ssa.Instruction, st *State, g string, done map[int
 			fr.lineHintHits = map[int]int{}
 		}
 		fr.lineHintHits[i]++
-		fr.curLocals, fr.curLocalAddrs = fr.localsBefore(in), nil
+		// names: everything visible at the head of this block (debug refs and named phis of dominating blocks, e.g. the
+		// result of an earlier loop), overridden by the debug refs that precede `in` inside the block
+		locals, _ := fr.localsAt(in.Block(), -1)
+		for _, x := range in.Block().Instrs {
+			if x == in {
+				break
+			}
+			d, ok := x.(*ssa.DebugRef)
+			if !ok || d.IsAddr {
+				continue
+			}
+			id, ok := d.Expr.(*ast.Ident)
+			if !ok {
+				continue
+			}
+			if sv, known := fr.vals[d.X]; known {
+				v := sv
+				locals[id.Name] = func(*State) SV { return v }
+			}
+		}
+		for name, f := range fr.localsBefore(in) {
+			if _, have := locals[name]; !have {
+				locals[name] = f
+			}
+		}
+		fr.curLocals, fr.curLocalAddrs = locals, nil
 		env := fr.specEnv(st, fr.entry)
 		t, err := env.evalBool(h.Clause.E)
 		fr.curLocals = nil
